@@ -395,6 +395,9 @@ def obs_equal(op, impl, model, cfg):
     return canon(impl, cfg) == canon(model, cfg)
 
 
+DOMAIN_NOTES = {}
+
+
 class Failure:
     def __init__(self, kind, pid, msg, scenario, impl=None, model=None):
         self.kind = kind          # "property" (concrete failing input) | "tie" (impl != model only)
@@ -407,9 +410,18 @@ class Failure:
 
 def episode_prefix(recs, i):
     """op lines from the last position-setting op up to and including record i"""
-    j = i
-    while j > 0 and recs[j]["op"].split(" ")[0] not in ("pos", "new", "gnew"):
-        j -= 1
+    def back(k):
+        while k > 0 and recs[k]["op"].split(" ")[0] not in ("pos", "new", "gnew"):
+            k -= 1
+        return k
+    j = back(i)
+    if recs[i]["op"].split(" ")[0] in ("search", "sched"):
+        # a search depends on everything its context has served: start where the context was made
+        k = i
+        while k > 0 and recs[k]["op"].split(" ")[0] != "sctx":
+            k -= 1
+        if recs[k]["op"].split(" ")[0] == "sctx" and k < j:
+            j = back(k)
     return [r["op"] for r in recs[j:i + 1]]
 
 
@@ -435,6 +447,9 @@ def compare(pid, scen, model, cfg, max_fail=5):
             if b.startswith(pid + " "):
                 fails.append(Failure("property", pid, b, episode_prefix(irecs, i), ri["obs"], rm["obs"]))
         for b in rm["bangs"]:
+            if b.startswith("SPEC DOMAIN "):
+                # outside the hypotheses of the closed theorems but still compared with the oracle
+                DOMAIN_NOTES[pid] = DOMAIN_NOTES.get(pid, 0) + 1
             if b.startswith("SPEC HYP "):
                 fails.append(Failure("tie", pid, "a hypothesis of the property theorems is not met on a visited state: " + b[9:], episode_prefix(irecs, i), ri["obs"], rm["obs"]))
         spec_bang = [b for b in rm["bangs"] if b.startswith("SPEC " + pid + " ")]
@@ -663,6 +678,7 @@ def run_property(pid, tier, seed, replay=None):
         "traces_validated_against_impl": total_ops,
         "input_distribution": dist,
         "known_findings_reported": sorted(known_printed),
+        "compared_outside_closed_theorem_domain": DOMAIN_NOTES.get(pid, 0),
         "explanation": cfg.get("explanation", ""),
     }
     level = "proof"
